@@ -37,6 +37,7 @@ type member struct {
 	breakAfterWrite bool     // the next accepted data frame is followed at once by a read error
 	pingsIn         int      // control pings delivered to this connection
 	writeGate       chan struct{} // non-nil: Write waits (durably) until it is closed - a connection slow to take data
+	closeDelay      time.Duration // CloseWithStatus takes this long (a close handshake) after the connection stopped carrying data
 }
 
 func (m *member) Read() ([]byte, error) {
@@ -98,11 +99,17 @@ func (m *member) Write(b []byte) error {
 func (m *member) Close() error { return m.CloseWithStatus(transport.CloseStatusNormal) }
 func (m *member) CloseWithStatus(transport.CloseStatus) error {
 	m.s.mu.Lock()
-	defer m.s.mu.Unlock()
 	if !m.isClosed {
 		m.isClosed = true
 		close(m.closed)
 	}
+	delay := m.closeDelay
+	m.s.mu.Unlock()
+	if delay > 0 {
+		time.Sleep(delay) // pending reads have already failed; the close handshake is still going on
+	}
+	m.s.mu.Lock()
+	defer m.s.mu.Unlock()
 	if m.closeErr != nil {
 		// the connection is torn down, but the close handshake could not be completed
 		m.s.stats["fault.close-returns-error"]++
@@ -259,9 +266,15 @@ func runC18(s *Sim) {
 	// tasks: writers, then reader, then control
 	readerT, ctlT := nWriters, nWriters+1
 	s.NewTasks(nWriters + 2)
+	// the application may leave the transport id to the library (it then makes one up and keeps it)
+	wantID := transport.TransportID("tid-c18")
+	if t.Bool("transport-id-left-to-the-library", 1, 4) {
+		wantID = ""
+	}
+	dialsAtClose, slowClose := 0, false
 	var tr *reconnect.Transport
 	dial := &Op{Name: "reconnect.Dial", Run: func(ctx context.Context) (any, error) {
-		x, err := reconnect.Dial(reconnect.DialConfig{Dialer: d, DialConfig: transport.DialConfig{Address: "sim", EncodingName: transport.EncodingNameProtobuf, TransportID: "tid-c18"},
+		x, err := reconnect.Dial(reconnect.DialConfig{Dialer: d, DialConfig: transport.DialConfig{Address: "sim", EncodingName: transport.EncodingNameProtobuf, TransportID: wantID},
 			MaxReconnectAttempts: maxAttempts, ReconnectInterval: interval})
 		if err != nil {
 			return nil, err
@@ -382,6 +395,13 @@ func runC18(s *Sim) {
 				if cur := d.current(); cur != nil && t.Bool("close-reports-error", 1, 2) {
 					s.mu.Lock()
 					cur.closeErr = errors.New("dsim: close frame could not be sent")
+					s.mu.Unlock()
+				}
+				if cur := d.current(); cur != nil && t.Bool("close-handshake-takes-time", 1, 2) {
+					s.mu.Lock()
+					cur.closeDelay = 200 * time.Millisecond
+					dialsAtClose = d.dials
+					slowClose = true
 					s.mu.Unlock()
 				}
 				s.Start(ctlT, &Op{Name: "Close", Run: func(ctx context.Context) (any, error) { return nil, tr.Close() }})
@@ -550,10 +570,24 @@ func runC18(s *Sim) {
 			}
 		}
 	}
+	// a Close whose underlying close handshake takes a while: nothing is dialled any more once Close was called
+	if slowClose {
+		s.mu.Lock()
+		nd := d.dials
+		s.mu.Unlock()
+		if nd > dialsAtClose {
+			s.Violate("C18.redial-during-close", "", "%d dial(s) after Close had been called (the underlying connection's close took 200 ms)", nd-dialsAtClose)
+		}
+	}
 	// redials carry the identity
 	for i, c := range d.cfgs {
-		if c.TransportID != "tid-c18" {
+		switch {
+		case wantID != "" && c.TransportID != wantID:
 			s.Violate("C18.transport-id", "", "dial #%d carried transport id %q", i+1, c.TransportID)
+		case wantID == "" && c.TransportID == "":
+			s.Violate("C18.transport-id", "generated:empty", "dial #%d carried no transport id (none was configured: the library generates one)", i+1)
+		case wantID == "" && c.TransportID != d.cfgs[0].TransportID:
+			s.Violate("C18.transport-id", "generated", "dial #%d carried transport id %q, the first dial %q", i+1, c.TransportID, d.cfgs[0].TransportID)
 		}
 		if i > 0 && !c.Reconnect {
 			s.Violate("C18.reconnect-flag", "", "redial #%d did not set the reconnect flag", i+1)
